@@ -36,6 +36,19 @@ Definition src_linear (st : sctx K -> sres K) : Prop :=
   (forall c k a b,
      sres2 (scale_rel k) (st (with_src c a b)) (st (with_src c (fmul k a) (fmul k b)))).
 
+(* the form in which the per-class lemmas are proved: the stamp with sources
+   (a, b) has the matrix of the stamp with sources (0, 0) and its right-hand side
+   is  a * rhs(1, 0) + b * rhs(0, 1);  success does not depend on (a, b) *)
+Definition src_affine (st : sctx K -> sres K) : Prop :=
+  forall c a b,
+    match st (with_src c a b), st (with_src c f0 f0), st (with_src c f1 f0), st (with_src c f0 f1) with
+    | SOk T, SOk T0, SOk Ta, SOk Tb =>
+        mat_eq T T0 /\
+        (forall mm r, is_vec mm = true -> vecv T mm r = fadd (fmul a (vecv Ta mm r)) (fmul b (vecv Tb mm r)))
+    | SErr, SErr, SErr, SErr => True
+    | _, _, _, _ => False
+    end.
+
 (* a source assignment gives every component position its (Isc, Voc) pair *)
 Definition srcs := nat -> K * K.
 Definition s_add (s1 s2 : srcs) : srcs := fun i => (fadd (fst (s1 i)) (fst (s2 i)), fadd (snd (s1 i)) (snd (s2 i))).
@@ -53,7 +66,7 @@ Fixpoint set_src (N : netlist K) (i : nat) (s : srcs) : netlist K :=
 Definition group_src (g : nat -> nat) (s : srcs) (j : nat) : srcs := s_mask (fun i => Nat.eqb (g i) j) s.
 
 End C03defs.
-Arguments with_src {K}. Arguments sres3 {K}. Arguments sres2 {K}. Arguments src_linear {K}.
+Arguments with_src {K}. Arguments sres3 {K}. Arguments sres2 {K}. Arguments src_linear {K}. Arguments src_affine {K}.
 Arguments srcs K : clear implicits.
 Arguments s_add {K}. Arguments s_scale {K}. Arguments s_zero {K}. Arguments s_mask {K}.
 Arguments set_src {K}. Arguments group_src {K}.
